@@ -31,6 +31,9 @@ pub enum Initial {
     DeadMetaOnly,
     /// meta of a dead pid next to the lock of a live one (a cleaner stopped half-way)
     DeadMetaLiveLock,
+    /// lock and meta of a live authority written in a record layout this build cannot parse
+    /// (version skew): valid JSON, wrong shape
+    LiveForeignLayout,
 }
 
 #[derive(Clone, Debug, Serialize, Deserialize, PartialEq)]
@@ -68,7 +71,8 @@ pub fn generate(run_seed: u64, tier: Tier) -> Scenario {
             crash: rng.chance(1, 2),
         })
         .collect();
-    let initial = match rng.below(12) {
+    let initial = match rng.below(13) {
+        12 => Initial::LiveForeignLayout,
         0..=2 => Initial::Nothing,
         3 | 4 => Initial::DeadLock,
         5 | 6 => Initial::DeadLockAndMeta,
@@ -165,6 +169,13 @@ pub fn execute(sc: &Scenario, env: &Env) -> (Outcome, RunStats) {
         }
         Initial::DeadMetaOnly => {
             std::fs::write(auth.join("meta.json"), meta_json(EXTERNAL_DEAD_PID)).ok();
+        }
+        Initial::LiveForeignLayout => {
+            std::fs::write(auth.join("lock.json"), format!("{}\n", json!({"v": 2, "owner": {"process": EXTERNAL_LIVE_PID, "since": 1_799_999_000_000u64}, "root": ws_s}))).ok();
+            std::fs::write(auth.join("meta.json"), format!("{}", json!({"v": 2, "url": "not-a-url", "owner": {"process": EXTERNAL_LIVE_PID}}))).ok();
+            let mut g = shared.lock().unwrap();
+            g.lock_creator = Some(EXTERNAL_LIVE_PID);
+            g.holders.push(EXTERNAL_LIVE_PID);
         }
         Initial::DeadMetaLiveLock => {
             std::fs::write(auth.join("lock.json"), lock_json(EXTERNAL_LIVE_PID)).ok();
@@ -311,7 +322,14 @@ pub fn execute(sc: &Scenario, env: &Env) -> (Outcome, RunStats) {
                             signature: format!(
                                 "live_authority_files_taken:{what}:{shape}:{}",
                                 match e.path2.as_deref() {
-                                    Some(t) if t.contains(".corrupt-") => "via_corrupt_cleanup",
+                                    // a corrupt-lock cleanup is only ever legitimate when no endpoint record exists
+                                    Some(t) if t.contains(".corrupt-") => {
+                                        if std::path::Path::new(&e.path).with_file_name("meta.json").exists() {
+                                            "via_corrupt_cleanup:meta_present"
+                                        } else {
+                                            "via_corrupt_cleanup:meta_absent"
+                                        }
+                                    }
                                     Some(t) if t.contains(".stale-") => "via_stale_cleanup",
                                     Some(_) => "via_other_rename",
                                     None => "via_unlink",
@@ -365,7 +383,7 @@ pub fn execute(sc: &Scenario, env: &Env) -> (Outcome, RunStats) {
     }
     // bounded liveness: every holder has crashed or released (unless an external live authority
     // exists): a fresh contender must get the role within its own deadline
-    let external_live = matches!(sc.initial, Initial::LiveLock { .. } | Initial::DeadMetaLiveLock);
+    let external_live = matches!(sc.initial, Initial::LiveLock { .. } | Initial::DeadMetaLiveLock | Initial::LiveForeignLayout);
     let got: Arc<Mutex<Option<Result<(), String>>>> = Arc::new(Mutex::new(None));
     let (g2, d2, w2) = (got.clone(), data.clone(), ws.clone());
     let rep2 = storesim::run_single("late-contender", move || {
@@ -469,7 +487,7 @@ impl Check for C18 {
         scenario.clone()
     }
     fn rule(&self) -> String {
-        "one evaluation = 2-5 contenders (distinct simulated pids) starting at staggered points from one of eight leftover states (no files, lock of a dead pid, lock+meta of a dead pid, half-written lock, empty lock, lock of a live pid with/without meta, meta of a dead pid only, dead meta next to a live lock), each running the real acquire_authority_lock_with_recovery; a contender that gets the role optionally writes meta, holds for 0-5 steps, then crashes (liveness flip, guard leaked) or releases; clock quantum 1-4 ms per read with optional jumps of 0.5-5 s; invariants at every scheduling point: at most one live holder, no rename/unlink of lock.json or meta.json that belongs to a live, unreleased pid by another pid; afterwards a fresh contender must acquire (or, with an external live authority, must be refused); distinct = hash of the (actor, point-class) trace; non-trivial = at least 2 context switches".into()
+        "one evaluation = 2-5 contenders (distinct simulated pids) starting at staggered points from one of nine leftover states (lock and meta of a live authority in a record layout this build cannot parse, no files, lock of a dead pid, lock+meta of a dead pid, half-written lock, empty lock, lock of a live pid with/without meta, meta of a dead pid only, dead meta next to a live lock), each running the real acquire_authority_lock_with_recovery; a contender that gets the role optionally writes meta, holds for 0-5 steps, then crashes (liveness flip, guard leaked) or releases; clock quantum 1-4 ms per read with optional jumps of 0.5-5 s; invariants at every scheduling point: at most one live holder, no rename/unlink of lock.json or meta.json that belongs to a live, unreleased pid by another pid; afterwards a fresh contender must acquire (or, with an external live authority, must be refused); distinct = hash of the (actor, point-class) trace; non-trivial = at least 2 context switches".into()
     }
     fn assumptions(&self) -> Vec<String> {
         vec![
